@@ -277,3 +277,23 @@ Print Assumptions C20_anim_lossless_frame_config_in_range_partial.
 Theorem C20_anim_kmin_is_the_only_unused_field : anim_unused_fields = [F.afld_Kmin].
 Proof. exact anim_kmin_is_the_only_unused_field. Qed.
 Print Assumptions C20_anim_kmin_is_the_only_unused_field.
+
+(** ---- the Preprocessing bit set ---- *)
+
+(** The lossy package reads the bit set only through `Preprocessing & 1 != 0` (regenerated list of
+    every read; another shape, e.g. a comparison with a constant, REFUSES), the propagation block
+    tests `& 2` for the dithering. *)
+Theorem C20_preprocessing_tests_match_doc : F.lossy_preprocessing_tests = doc_preprocessing_tests /\ F.dither_mask = 2.
+Proof. exact preprocessing_tests_match_doc. Qed.
+Print Assumptions C20_preprocessing_tests_match_doc.
+
+(** Each bit acts whatever the other bit is: for every accepted lossy request the segment map is
+    smoothed iff Preprocessing is 1 or 3 (and several segments are used) and dithering is on iff it
+    is 2 or 3 - the documented table 0 none, 1 segment smooth, 2 dithering, 3 both. *)
+Theorem C20_preprocessing_bits_meaning : forall oo w h ha c a e s m,
+  effective oo w h ha = Ok (ELossy c a e s m) ->
+  0 <= cPreprocessing c <= 3 /\
+  segment_smooth_on c = ((cSegments c >? 1) && ((cPreprocessing c =? 1) || (cPreprocessing c =? 3))) /\
+  dither_on c = ((cPreprocessing c =? 2) || (cPreprocessing c =? 3)).
+Proof. exact preprocessing_bits_meaning. Qed.
+Print Assumptions C20_preprocessing_bits_meaning.
